@@ -236,18 +236,27 @@ structure NP where
   const : VC → Ty → List Ty
   /-- template of `kind` applied to operands of the given DTYPES -/
   op : Kind → Nat → List Ty → List Ty
+  /-- `upcast` / `downcast`: the printer chooses the target dtype from the operand's STATIC type -/
+  cast : Kind → Nat → List Ty → List Ty
 
 /-- A single-valued observation. -/
 def single : List Ty → Option Ty
   | [d] => some d
   | _ => none
 
+def Kind.isCast : Kind → Bool
+  | .upcast | .downcast => true
+  | _ => false
+
 /-- dtype produced at one node, from the static types (`senv`: constants and casts are printed from
-static types) and the run-time dtypes (`denv`) of the earlier nodes. -/
+static types) and the run-time dtypes (`denv`) of the earlier nodes.  No value is produced when an operand produced none. -/
 def nodeDyn (np : NP) (senv denv : List (Option Ty)) : Node → Option Ty
   | .symbol t => single (np.symbol t)
   | .const vc l => (senv.getD l none).bind (fun t => single (np.const vc t))
-  | .op k idx as => (allSome (as.map (fun a => denv.getD a none))).bind (fun ds => single (np.op k idx ds))
+  | .op k idx as =>
+    (allSome (as.map (fun a => denv.getD a none))).bind fun ds =>
+      if k.isCast then (allSome (as.map (fun a => senv.getD a none))).bind (fun ts => single (np.cast k idx ts))
+      else single (np.op k idx ds)
 
 def dynFrom (np : NP) (senv denv : List (Option Ty)) : List Node → List (Option Ty)
   | [] => denv
@@ -336,6 +345,7 @@ def Tables.toNP (T : Tables) : NP where
   symbol t := ((T.symbols.find? (fun r => r.ty.beq t)).map (·.obs)).getD []
   const vc t := ((T.consts.find? (fun r => r.vc.beq vc && r.like.beq t)).map (·.obs)).getD []
   op k idx ds := (T.npLookup k idx ds).getD []
+  cast k idx ts := ((allSome (ts.map T.canonTy)).bind (T.npLookup k idx)).getD []
 
 /-- Status of one static row against the observed table. -/
 inductive Status | untyped | unprintable | unobserved | error | agree | disagree
